@@ -157,7 +157,33 @@ def oracle_order(args):
     return not bad, out, {"ratio": "about 4 (>= 3)"}, "error does not shrink fourfold when dt is halved: " + ", ".join(bad)
 
 
-ORACLES = {"whole_run": rc.oracle_whole_run, "reverse": oracle_reverse, "order": oracle_order}
+@safe_oracle
+def oracle_final_time(args):
+    """"at a fixed final time": a run ended by max_time=T takes round(T/dt) steps and its last snapshot is AT T (1e-8), also for
+    steps that are not binary fractions (the clock is accumulated by time += dt and may land a few ulp below T)"""
+    import mudslide
+    spec = dict(args)
+    T = float(spec["T"])
+    problems = []
+    for dt in spec["dts"]:
+        if spec.get("md"):
+            rng = np.random.Generator(np.random.PCG64(spec["model_seed"]))
+            nd = spec["n"]
+            model = mudslide.models.HarmonicModel(np.zeros(nd), 0.0, np.diag(rng.uniform(0.001, 0.01, size=nd)), rng.uniform(500, 3000, size=nd))
+            t = mudslide.AdiabaticMD(model, rng.normal(size=nd), rng.normal(size=nd) * 3, dt=dt, max_time=T)
+        else:
+            model, rho0, _r = _model(spec)
+            t = mudslide.TrajectorySH(model, np.array(spec["x0"]), np.array(spec["p0"]), rho0, state0=spec["state"], dt=dt, max_time=T,
+                                      zeta_list=[1e300] * (int(T / dt) + 10), electronic_integration=spec.get("integ", "exp"), seed_sequence=1)
+        tr = t.simulate()
+        last = list(tr)[-1]
+        steps = int(round(T / dt))
+        if abs(last["time"] - T) > 1e-8 or t.nsteps != steps:
+            problems.append("dt=%r: the run ended at t=%r after %d steps; the requested final time is %r (%d steps)" % (dt, last["time"], t.nsteps, T, steps))
+    return not problems, {"problems": problems[:3]}, {"final_time": T}, "; ".join(problems[:2]) or "ok"
+
+
+ORACLES = {"final_time": oracle_final_time, "whole_run": rc.oracle_whole_run, "reverse": oracle_reverse, "order": oracle_order}
 
 
 def run(ctx):
@@ -236,6 +262,18 @@ def run(ctx):
             if not spec["md"] and obs.get("rho_error", 0) > 1e-9 and obs.get("x_error", 1) <= 1e-9:
                 sig = "last-velocity-alias"
             ctx.oracle_fail(sig, "reverse", spec, obs, req, text)
+    for i in range(ctx.budget(3, 30)):
+        N, n = int(rng.integers(2, 4)), int(rng.integers(1, 3))
+        a = dict(N=N, n=n, model_seed=int(rng.integers(1, 10 ** 6)), x0=list(rng.normal(size=n) * 0.5), p0=list(rng.normal(size=n) * 10 + 5),
+                 state=int(rng.integers(0, N)), T=float(rng.choice([6.0, 12.0, 60.0])), dts=[0.4, 0.2, 0.1, 0.05, 0.3, 0.6][:4 + i % 3],
+                 integ=["exp", "linear-rk4"][i % 2], md=(i % 3 == 2))
+        if a["T"] == 60.0:
+            a["dts"] = [0.4, 0.3, 0.6]
+        ok, obs, req, text = oracle_final_time(a)
+        ctx.case(("final-time", a["T"], a["md"]))
+        ctx.count("runs_to_a_fixed_final_time", len(a["dts"]))
+        if not ok:
+            ctx.oracle_fail("final-time", "final_time", a, obs, req, text)
     for i in range(ctx.budget(9, 62)):
         N, n = int(rng.integers(2, 4)), int(rng.integers(1, 3))
         spec = dict(N=N, n=n, model_seed=int(rng.integers(1, 10 ** 6)), x0=list(rng.normal(size=n) * 0.5), p0=list(rng.normal(size=n) * 10 + 5),
